@@ -58,7 +58,7 @@ def BusEv.isWrite : BusEv → Bool
 /-- a callback invocation with what the application did inside it -/
 structure CbRec where
   ev : CbEvent
-  reaction : Option String := none     -- printed form of the nested API call and its result
+  reaction : Option (Except Code Out) := none     -- result of the API call the application made inside
   deriving Repr, Inhabited
 
 structure World where
@@ -179,10 +179,55 @@ def bwrite (cached : Bool) (w : World) (reg : Nat) (data : List UInt8) : Step Un
     .ok (.ok ()) { w with cache := w.cache.store reg data }
 end Shadow
 
+namespace Outcome
+def world : Outcome α → World
+  | .done _ w => w
+  | .ub _ w => w
+end Outcome
+
+/-- run a program; `onCb` says what happens at a callback node (logging, the application's
+    reaction) and yields the handle as the application leaves it -/
+def execG (cached : Bool) (onCb : CbEvent → Handle → World → Outcome Handle) : Prog α → World → Outcome α
+  | .ret a, w => .done a w
+  | .ub u, w => .ub u w
+  | .sread reg n k, w =>
+    match Shadow.sread cached w reg n with
+    | .ok r w => execG cached onCb (k r) w
+    | .ub u => .ub u w
+  | .rread reg k, w =>
+    match Shadow.rread cached w reg with
+    | .ok r w => execG cached onCb (k r) w
+    | .ub u => .ub u w
+  | .swrite reg d k, w =>
+    match Shadow.swrite cached w reg d with
+    | .ok r w => execG cached onCb (k r) w
+    | .ub u => .ub u w
+  | .bwrite reg d k, w =>
+    match Shadow.bwrite cached w reg d with
+    | .ok r w => execG cached onCb (k r) w
+    | .ub u => .ub u w
+  | .bread reg n k, w =>
+    let (r, w) := w.busReadBuf reg n
+    execG cached onCb (k r) w
+  | .rawbread reg n k, w =>
+    let (r, w) := w.busReadBuf reg n
+    execG cached onCb (k r) w
+  | .callback e h k, w =>
+    match onCb e h w with
+    | .done h' w' => execG cached onCb (k h') w'
+    | .ub u w' => .ub u w'
+
+/-- a callback without application reaction: it is only logged -/
+def logCb (e : CbEvent) (h : Handle) (w : World) : Outcome Handle :=
+  .done h { w with cbs := { ev := e } :: w.cbs }
+
+/-- run a program in which callbacks (if any) have no application reaction -/
+def exec0 (cached : Bool) (p : Prog α) (w : World) : Outcome α := execG cached logCb p w
+
 /-- What the application does inside a callback: at most one API call, given as a program on the
     handle plus the text the trace shows for it. -/
 structure Reaction where
-  run : Handle → Prog (String × Handle)
+  run : Handle → Prog (Except Code Out × Handle)
 
 structure Cfg where
   cached : Bool := true
@@ -195,67 +240,16 @@ def Cfg.reactionFor (cfg : Cfg) : CbEvent → Option Reaction
   | .tx => cfg.onTx
   | .cad _ => cfg.onCad
 
-/-- run a program in which callbacks (if any) have no application reaction -/
-def exec0 (cached : Bool) : Prog α → World → Outcome α
-  | .ret a, w => .done a w
-  | .ub u, w => .ub u w
-  | .sread reg n k, w =>
-    match Shadow.sread cached w reg n with
-    | .ok r w => exec0 cached (k r) w
-    | .ub u => .ub u w
-  | .rread reg k, w =>
-    match Shadow.rread cached w reg with
-    | .ok r w => exec0 cached (k r) w
-    | .ub u => .ub u w
-  | .swrite reg d k, w =>
-    match Shadow.swrite cached w reg d with
-    | .ok r w => exec0 cached (k r) w
-    | .ub u => .ub u w
-  | .bwrite reg d k, w =>
-    match Shadow.bwrite cached w reg d with
-    | .ok r w => exec0 cached (k r) w
-    | .ub u => .ub u w
-  | .bread reg n k, w =>
-    let (r, w) := w.busReadBuf reg n
-    exec0 cached (k r) w
-  | .rawbread reg n k, w =>
-    let (r, w) := w.busReadBuf reg n
-    exec0 cached (k r) w
-  | .callback e h k, w => exec0 cached (k h) { w with cbs := { ev := e } :: w.cbs }
+/-- on a callback the application's reaction (an API call, which itself invokes no callback)
+    runs to completion before the handler continues -/
+def Cfg.onCb (cfg : Cfg) (e : CbEvent) (h : Handle) (w : World) : Outcome Handle :=
+  match cfg.reactionFor e with
+  | none => logCb e h w
+  | some re =>
+    match exec0 cfg.cached (re.run h) w with
+    | .done (r, h') w' => .done h' { w' with cbs := { ev := e, reaction := some r } :: w'.cbs }
+    | .ub u w' => .ub u w'
 
-/-- run a program; on a callback the application's reaction (an API call, which itself invokes
-    no callback) runs to completion before the handler continues -/
-def exec (cfg : Cfg) : Prog α → World → Outcome α
-  | .ret a, w => .done a w
-  | .ub u, w => .ub u w
-  | .sread reg n k, w =>
-    match Shadow.sread cfg.cached w reg n with
-    | .ok r w => exec cfg (k r) w
-    | .ub u => .ub u w
-  | .rread reg k, w =>
-    match Shadow.rread cfg.cached w reg with
-    | .ok r w => exec cfg (k r) w
-    | .ub u => .ub u w
-  | .swrite reg d k, w =>
-    match Shadow.swrite cfg.cached w reg d with
-    | .ok r w => exec cfg (k r) w
-    | .ub u => .ub u w
-  | .bwrite reg d k, w =>
-    match Shadow.bwrite cfg.cached w reg d with
-    | .ok r w => exec cfg (k r) w
-    | .ub u => .ub u w
-  | .bread reg n k, w =>
-    let (r, w) := w.busReadBuf reg n
-    exec cfg (k r) w
-  | .rawbread reg n k, w =>
-    let (r, w) := w.busReadBuf reg n
-    exec cfg (k r) w
-  | .callback e h k, w =>
-    match cfg.reactionFor e with
-    | none => exec cfg (k h) { w with cbs := { ev := e } :: w.cbs }
-    | some re =>
-      match exec0 cfg.cached (re.run h) w with
-      | .done (txt, h') w' => exec cfg (k h') { w' with cbs := { ev := e, reaction := some txt } :: w'.cbs }
-      | .ub u w' => .ub u w'
+def exec (cfg : Cfg) (p : Prog α) (w : World) : Outcome α := execG cfg.cached cfg.onCb p w
 
 end Sx
